@@ -205,6 +205,8 @@ pub fn run(ctx: &mut Ctx) {
     });
     ctx.require(&r, &["ok_exact_product", "ok_within_band", "range_error", "nan_or_infinite_days"]);
     // hidden state: every ordered pair of operation calls on a fresh thread against the lone call (no model involved)
-    let hist_calls = crate::histpairs::calls_ops(false, &|op| { use crate::optable::Op::*; op.sig().2 || matches!(op, SAddDays | SSubDays | YAdd | YSub | IAdd | ISub) });
+    let hist_calls = crate::histpairs::calls_ops(true, &|op| { use crate::optable::Op::*; op.sig().2 || matches!(op, SAddDays | SSubDays | YAdd | YSub | IAdd | ISub) });
     crate::histpairs::pairwise(ctx, "C08", "linear_arithmetic", hist_calls);
+    let hist_calls_full = crate::histpairs::calls_ops(false, &|op| { use crate::optable::Op::*; op.sig().2 || matches!(op, SAddDays | SSubDays | YAdd | YSub | IAdd | ISub) });
+    crate::histpairs::pairwise_same_thread(ctx, "C08", "linear_arithmetic", hist_calls_full);
 }
